@@ -6,13 +6,17 @@ edges of a chopped direction each get the chop evaluated on *their own* length (
 preserved first/last cell size hold on every edge); every chop a block receives by propagation descends
 from a user chop with the same count and length ratio; a direction is reported `simple` only if its four
 gradings are equal.  For every input, schedule and expansion oracle.
-Partial: that the inversion *parity* a propagated chop carries equals the geometric orientation of the
-receiving edge relative to the chopped one is not a theorem (it is checked on the written file by the
-oracle `hex:preserved-size-not-realised-at-the-same-end` and by the correspondence, whose expansion
-oracle is computed independently per geometric end).
+For orientable inputs (`WireCoh`: an orientation of the block directions under which two wires on the same vertex
+pair run the same way iff their directions are oriented alike) the inversion *parity* a propagated chop carries equals
+the orientation of the receiving direction relative to the chopped one (`T_C04_parity`), so the expansion oracle is
+always consulted "as seen from the receiving edge's own direction".  Partial: that the geometric input is orientable
+(no Möbius-like family) is a hypothesis — decided per generated case by the harness, which skips non-orientable
+families; that the expansion oracle itself realises the preserved size at that end is checked on the written file
+(`hex:preserved-size-not-realised-at-the-same-end`).
 -/
 import CBV.Props.C01
 import CBV.Lemmas.C04Desc
+import CBV.Lemmas.C04Parity
 
 namespace CBV.Prop
 
@@ -72,6 +76,23 @@ theorem T_C04_descends (inp : Inp) (st : St) (h : run inp = .ok st) (x : Nat) :
     ∀ c ∈ chopsOf st x, ∃ y, ∃ c0 ∈ inp.chops y, c.id = c0.id ∧ c.ratio = c0.ratio ∧ c.count = c0.count :=
   run_desc inp st h x
 
+/-- orientation: when the block directions can be oriented coherently (`o`), every chop a direction holds at the end —
+    its own or received through any chain of aligned / anti-aligned hops, in any schedule — is inverted exactly when its
+    direction is oriented against the direction the user chopped (`src` of the chop's id) -/
+theorem T_C04_parity (inp : Inp) (st : St) (h : run inp = .ok st) (o : Nat → Bool) (src : Nat → Nat)
+    (hc : WireCoh inp o) (hs : Src inp src) :
+    ∀ x, x < 3 * inp.nBlocks → ∀ c ∈ chopsOf st x, c.inv = (o x != o (src c.id)) :=
+  run_par inp o src hc hs st h
+
+/-- hence two directions of one family that are oriented alike hold their common chops with the same parity, and
+    oppositely oriented ones with opposite parity -/
+theorem T_C04_parity_relative (inp : Inp) (st : St) (h : run inp = .ok st) (o : Nat → Bool) (src : Nat → Nat)
+    (hc : WireCoh inp o) (hs : Src inp src) (x y : Nat) (hx : x < 3 * inp.nBlocks) (hy : y < 3 * inp.nBlocks)
+    (c d : Chop) (hcx : c ∈ chopsOf st x) (hdy : d ∈ chopsOf st y) (hid : c.id = d.id) :
+    (c.inv == d.inv) = (o x == o y) := by
+  rw [run_par inp o src hc hs st h x hx c hcx, run_par inp o src hc hs st h y hy d hdy, hid]
+  cases o x <;> cases o y <;> cases o (src d.id) <;> rfl
+
 /-- a direction is written with a single expansion only if the gradings of its four edges are equal
     (to the tolerance of `Grading.__eq__`) -/
 theorem T_C04_simple (st : St) (x : Nat) (h : isSimple st x = true) :
@@ -117,5 +138,22 @@ example : samePair (twoBoxes 5 0) 5 16 = true ∧ (5 : Nat) / 12 ≠ 16 / 12 := 
   constructor
   · decide +kernel
   · decide
+
+/-- non-vacuity of `T_C04_parity`: the two boxes are orientable (all shared edges are traversed the same way) … -/
+example : WireCoh (twoBoxes 5 0) (fun _ => false) :=
+  wireCoh_of_check _ _ (by decide +kernel)
+
+/-- … and the ids of their user chops name the chopped direction -/
+example : Src (twoBoxes 5 0) (fun id => id) := by
+  intro y c hc
+  by_cases hy : y < 5
+  · have : y = 0 ∨ y = 1 ∨ y = 2 ∨ y = 3 ∨ y = 4 := by omega
+    rcases this with e | e | e | e | e <;> subst e <;> simp [twoBoxes] at hc <;> subst hc <;> exact ⟨rfl, rfl⟩
+  · exfalso
+    have h0 : y ≠ 0 := by omega
+    have h1 : y ≠ 1 := by omega
+    have h2 : y ≠ 2 := by omega
+    have h3 : y ≠ 3 := by omega
+    simp [twoBoxes, h0, h1, h2, h3] at hc
 
 end CBV.Prop.Examples
